@@ -94,7 +94,7 @@ def _registry(draw) -> dict:
 
 
 def strategy(tier: str):
-    ops = st.lists(_line_strategy().map(lambda line: ["rx", line]), min_size=5, max_size=25)
+    ops = st.lists(gen.with_ack(_line_strategy()).map(lambda line: ["rx", line]), min_size=5, max_size=25)
     return st.fixed_dictionaries(
         {
             "version": gen.versions,
@@ -107,6 +107,7 @@ def strategy(tier: str):
 
 
 ENUM_ALPHABET = (
+    "1;1;1;1;0;9\n",
     "1;255;0;0;17;2.0\n",
     "2;255;0;0;18;1.4\n",
     "1;1;0;0;6;d\n",
